@@ -48,6 +48,10 @@ pub const STREAMS: &[(&str, usize, usize)] = &[
     // context, through EVERY entry point (parse, compile, check_package, build_package, link_cores, the three queries).
     // The counts are placeholders: the parent uses the length of the catalogue (harness/src/arity.rs)
     ("call-arity", 0, 0),
+    // every pattern form × every scrutinee type × every way the scrutinee's type becomes known (concrete when the pattern is
+    // checked, or an inference variable resolved later / never) × every place a pattern can sit × match / let, through EVERY
+    // entry point. The counts are placeholders: the parent uses the length of the catalogue (harness/src/patcat.rs)
+    ("pat-scrut", 0, 0),
     // features with known findings: kept out of the streams above so they cannot mask anything
     ("known-polyrec", 6, 12),
     ("known-artifact-core-ir", 200, 3000),
@@ -712,6 +716,13 @@ fn build_case(stream: &str, idx: usize, seed: u64, thorough: bool, corpus: &[(St
                 None => ("none".into(), Case::Text(String::new())),
             }
         }
+        "pat-scrut" => {
+            let cat = pat_catalogue(thorough);
+            match cat.get(idx) {
+                Some(c) => (c.tag.clone(), Case::Text(c.src.clone())),
+                None => ("none".into(), Case::Text(String::new())),
+            }
+        }
         "regress" => {
             let mut files: Vec<PathBuf> = std::fs::read_dir(util::verif_root().join("corpus/C04"))
                 .map(|rd| rd.filter_map(|e| e.ok().map(|e| e.path())).filter(|p| p.file_name().is_some_and(|n| n.to_string_lossy().starts_with("regress-"))).collect())
@@ -1015,10 +1026,25 @@ fn arity_catalogue(thorough: bool) -> &'static Vec<crate::arity::ArityCase> {
     CAT.get_or_init(|| crate::arity::catalogue(thorough))
 }
 
+fn pat_catalogue(thorough: bool) -> &'static Vec<crate::patcat::PatCase> {
+    static CAT: std::sync::OnceLock<Vec<crate::patcat::PatCase>> = std::sync::OnceLock::new();
+    CAT.get_or_init(|| crate::patcat::catalogue(thorough))
+}
+
+/// the streams whose texts go through every entry point (`run_text_full`)
+fn full_entry_stream(stream: &str) -> bool {
+    stream == "call-arity" || stream == "pat-scrut"
+}
+
 /// `run_text` + the other entry points on the same single-file package: check_package, build_package,
 /// link_cores of what build_package produced (with the Go pretty printer), and the three editor queries at
 /// the start of every identifier / `(` / `)` token (at most 40 positions).
 fn run_text_full(w: &Watch, key: crash::Key, dir: &Path, src: &str, tally: &mut Tally, out: &mut Vec<Finding>) {
+    run_text_entries(w, key, dir, src, tally, out, 40)
+}
+
+/// `run_text_full` with the queries at the last `max_pos` positions only
+fn run_text_entries(w: &Watch, key: crash::Key, dir: &Path, src: &str, tally: &mut Tally, out: &mut Vec<Finding>, max_pos: usize) {
     run_text(w, key, dir, src, tally, out);
     let path = dir.join("main.gom");
     let pan = |entry: &str, p: crash::PanicInfo, out: &mut Vec<Finding>| {
@@ -1088,7 +1114,7 @@ fn run_text_full(w: &Watch, key: crash::Key, dir: &Path, src: &str, tally: &mut 
         }
     }
     // keep the positions of the LAST lines (the items come first, the call under test last)
-    let skip = positions.len().saturating_sub(40);
+    let skip = positions.len().saturating_sub(max_pos);
     let mut answered = 0usize;
     for (l, c) in positions.into_iter().skip(skip) {
         match w.guarded(0, key, || compiler::query::hover_type(&path, src, l, c).is_ok()) {
@@ -1358,7 +1384,9 @@ fn child(args: &util::Args, stream: &str, from: usize, to: usize, outfile: &Path
                 }
                 Guarded::Panic(p) => findings.push(Finding { kind: "panic", entry: "parser-primitives".into(), site: crash::site_of(&p), msg: p.msg }),
             },
-            Case::Text(s) if stream == "call-arity" => run_text_full(&watch, key, &dir, s, &mut tally, &mut findings),
+            // the pattern catalogue's texts differ in their last lines only: the queries there (12 positions), every entry point
+            Case::Text(s) if stream == "pat-scrut" => run_text_entries(&watch, key, &dir, s, &mut tally, &mut findings, 12),
+            Case::Text(s) if full_entry_stream(stream) => run_text_full(&watch, key, &dir, s, &mut tally, &mut findings),
             Case::Text(s) => run_text(&watch, key, &dir, s, &mut tally, &mut findings),
             Case::Layout { files, entry } => run_layout(&watch, key, &dir, files, entry, &mut tally, &mut findings),
             Case::Artifact { what, target, content } => run_artifact(&watch, key, &dir, &kit, what, target, content, &mut tally, &mut findings),
@@ -1374,7 +1402,7 @@ fn child(args: &util::Args, stream: &str, from: usize, to: usize, outfile: &Path
                     let mut scratch = Tally { outcomes: BTreeMap::new() };
                     let mut pred = |cand: &str| {
                         let mut fs = Vec::new();
-                        if stream == "call-arity" {
+                        if full_entry_stream(stream) {
                             run_text_full(&watch, key, &dir, cand, &mut scratch, &mut fs);
                         } else {
                             run_text(&watch, key, &dir, cand, &mut scratch, &mut fs);
@@ -1398,7 +1426,7 @@ fn child(args: &util::Args, stream: &str, from: usize, to: usize, outfile: &Path
         }
         {
             let outs: Vec<String> = tally.outcomes.iter().map(|(k, v)| format!("{}={}", k, v)).collect();
-            let keep_tag = stream == "call-arity" || stream == "occurs" || stream == "gen-ok" || stream == "gen-ill" || stream == "nest" || stream == "layout" || stream.contains("artifact");
+            let keep_tag = full_entry_stream(stream) || stream == "occurs" || stream == "gen-ok" || stream == "gen-ill" || stream == "nest" || stream == "layout" || stream.contains("artifact");
             let _ = writeln!(f, "R\t{}\t{}\t{}\t{}", stream, idx, outs.join(" "), if keep_tag { esc_line(&tag) } else { String::new() });
             tally.outcomes.clear();
         }
@@ -1562,10 +1590,16 @@ pub fn main(args: &util::Args) {
         if only.as_deref().is_some_and(|o| o != *name) {
             continue;
         }
-        let (q, t) = if *name == "call-arity" { (arity_catalogue(thorough).len(), arity_catalogue(thorough).len()) } else { (*q, *t) };
+        let (q, t) = if *name == "call-arity" {
+            (arity_catalogue(thorough).len(), arity_catalogue(thorough).len())
+        } else if *name == "pat-scrut" {
+            (pat_catalogue(thorough).len(), pat_catalogue(thorough).len())
+        } else {
+            (*q, *t)
+        };
         let (q, t) = (&q, &t);
         let n = args.n.map(|n| n.min(*t)).unwrap_or(if thorough { *t } else { *q });
-        let size = n.div_ceil(if *name == "call-arity" { 16 } else if n > 800 || *name == "nest" { 8 } else if n > 100 { 2 } else { 1 }).max(1);
+        let size = n.div_ceil(if full_entry_stream(name) { 16 } else if n > 800 || *name == "nest" { 8 } else if n > 100 { 2 } else { 1 }).max(1);
         let mut a = 0;
         while a < n {
             chunks.push((name.to_string(), a, (a + size).min(n)));
